@@ -317,6 +317,10 @@ func (b *band) GetRX1DataRateIndex(uplinkDR, rx1DROffset int) (int, error) {
 		return 0, errors.New("lorawan/band: invalid data-rate")
 	}
 
+	if rx1DROffset < 0 {
+		return 0, errors.New("lorawan/band: invalid RX1 data-rate offset")
+	}
+
 	if rx1DROffset > len(offsetSlice)-1 {
 		return 0, errors.New("lorawan/band: invalid RX1 data-rate offset")
 	}
